@@ -395,11 +395,11 @@ def coq_octets(data):
     return bg._coq_bytes(data)
 
 
-BIG_ENC = ('(fun b : bundle => let o := impl_encode_bundle b in '
-           '(N.of_nat (List.length o), DTN.Lib.Crc.crc32c o, [bytes_eqb o (encode_bundle (with_crc_bundle (impl_norm_bundle b))); wf_bundleb b]))')
-BIG_DEC = ('(fun bs : bytes => match decode_bundle bs with '
+BIG_ENC = ('Definition big_enc := (fun b : bundle => let o := impl_encode_bundle b in '
+           '(N.of_nat (List.length o), DTN.Lib.Crc.crc32c o, [bytes_eqb o (encode_bundle (with_crc_bundle (impl_norm_bundle b))); wf_bundleb b])).\n')
+BIG_DEC = ('Definition big_dec := (fun bs : bytes => match decode_bundle bs with '
            '| Some b => Some (ren_primary b.(prim), map (fun k => (fst (fst (ren_cblock k)), N.of_nat (List.length (btsd k)), '
-           'DTN.Lib.Crc.crc32c (btsd k), ren_opt (bcrc k))) b.(blocks), bytes_eqb (impl_encode_bundle b) bs) | None => None end)')
+           'DTN.Lib.Crc.crc32c (btsd k), ren_opt (bcrc k))) b.(blocks), bytes_eqb (impl_encode_bundle b) bs) | None => None end).\n')
 
 
 def big_suite(chk, cases, pending):
@@ -426,8 +426,10 @@ def big_suite(chk, cases, pending):
         if probs:
             report(chk, pending, classify(spec) or 'C02 / %s of a well-formed bundle (big payload)' % probs[0][0],
                    probs[0][1], dict(kind='spec', spec=spec))
-    menc = chk.coq_eval('bigenc', ['Lib.Cbor', 'Lib.Crc', 'Model.Bundle'], [bg.coq_bundle(spec) for (_l, spec) in cases], BIG_ENC, chunk=1)
-    mdec = chk.coq_eval('bigdec', ['Lib.Cbor', 'Lib.Crc', 'Model.Bundle'], [bg.coq_encoded(spec) for (_l, spec) in cases], BIG_DEC, chunk=1)
+    res = yield (['(big_enc %s)' % bg.coq_bundle(spec) for (_l, spec) in cases] +
+                 ['(big_dec %s)' % bg.coq_encoded(spec) for (_l, spec) in cases])
+    menc = res[:len(cases)]
+    mdec = res[len(cases):]
     for ((label, spec), obs, enc, dec) in zip(cases, impl, menc, mdec):
         (length, digest, flags) = enc
         for got in obs['enc']:
@@ -454,6 +456,10 @@ def big_suite(chk, cases, pending):
 # one evaluation per case: run_encode on the bundle and run_decode on the independent encoder's octets; octet
 # strings equal to one already printed are printed as [] (printing long lists dominates the cost)
 RUN_CASE = '''
+Definition view_fun := (fun tb : N * bytes => let (t, bs) := tb in
+  if (t =? 6)%N then match decode_prev_node bs with Some e => [[fst (ren_eid e)]; snd (ren_eid e)] | None => [] end
+  else if (t =? 7)%N then match decode_bundle_age bs with Some n => [[n]] | None => [] end
+  else match decode_hop_count bs with Some (l, c) => [[l; c]] | None => [] end).
 Definition run_case (p : bundle * bytes) :=
   let (b, bs) := p in
   match run_encode b with
@@ -467,17 +473,16 @@ Definition run_case (p : bundle * bytes) :=
 '''
 
 
-def run_streams(chk, cases, pending):
+def run_streams(chk, cases, pending, shared):
     ''' enc/dec correspondence + oracle over (label, spec) cases.
     :return: (agree_enc, agree_dec, first disagreement text) '''
     impl = []
     for (label, spec) in cases:
         raw = bg.encode(spec)
         impl.append(dict(enc=impl_encode_modes(spec), dec=impl_decode(raw), raw=raw))
+    shared['impl'] = impl
     tick(chk, 'impl side of %d cases' % len(cases))
-    both = chk.coq_eval('case', ['Lib.Cbor', 'Model.Bundle'],
-                        ['(%s, %s)' % (bg.coq_bundle(spec), bg.coq_encoded(spec)) for (_l, spec) in cases],
-                        'run_case', chunk=64, prelude=RUN_CASE)
+    both = yield ['(run_case (%s, %s))' % (bg.coq_bundle(spec), bg.coq_encoded(spec)) for (_l, spec) in cases]
     enc_model = []
     dec_model = []
     for ((o1, o2, flags, dec), obs) in zip(both, impl):
@@ -542,7 +547,7 @@ def run_streams(chk, cases, pending):
                     bad_dec.append('%s: re-encoding differs: impl %s model %s' % (label, str(obs['dec']['reenc'])[:100], bytes(val[5]).hex()[:100]))
         # guard flag of the model must tell the streams apart
         chk.count('model_guard', 'inside' if (m_flags[0] and m_flags[1]) else 'outside')
-    return (bad_enc, bad_dec, impl, enc_model)
+    return (bad_enc, bad_dec)
 
 
 def report(chk, pending, sig, what, replay_obj):
@@ -556,9 +561,10 @@ def report(chk, pending, sig, what, replay_obj):
     chk.fail(sig, what, replay_obj)
 
 
-def typed_view_suite(chk, cases, impl):
+def typed_view_suite(chk, cases, shared):
     ''' sr / views: typed BTSD decoders of the model against what the implementation parsed. '''
     import bp.encoding as enc
+    impl = shared['impl']
     sr_data = {}
     view_terms = []
     view_want = []
@@ -593,8 +599,10 @@ def typed_view_suite(chk, cases, impl):
             except Exception as err:
                 bad.append('%s: re-parse raised %s' % (label, err))
     keys = sorted(sr_data)
+    res = yield (['(run_status_decode %s)' % coq_octets(bytes.fromhex(key)) for key in keys] +
+                 ['(view_fun %s)' % term for term in view_terms])
     if keys:
-        model = chk.coq_eval('sr', ['Lib.Cbor', 'Model.Bundle'], [coq_octets(bytes.fromhex(key)) for key in keys], 'run_status_decode')
+        model = res[:len(keys)]
         for (key, mval) in zip(keys, model):
             real = impl_admin(bytes.fromhex(key))
             chk.count('status_report', 'items=%d' % (4 + (sr_data[key]['frag_off'] is not None) + (sr_data[key]['pay_len'] is not None)))
@@ -610,11 +618,7 @@ def typed_view_suite(chk, cases, impl):
             if rec != sr_data[key]:
                 bad.append('status report %s: model decodes %r, generated from %r' % (key[:60], rec, sr_data[key]))
     if view_terms:
-        func = ('(fun tb : N * bytes => let (t, bs) := tb in '
-                'if (t =? 6)%N then match decode_prev_node bs with Some e => [[fst (ren_eid e)]; snd (ren_eid e)] | None => [] end '
-                'else if (t =? 7)%N then match decode_bundle_age bs with Some n => [[n]] | None => [] end '
-                'else match decode_hop_count bs with Some (l, c) => [[l; c]] | None => [] end)')
-        model = chk.coq_eval('views', ['Lib.Cbor', 'Model.Bundle'], view_terms, func)
+        model = res[len(keys):]
         for (want, mval) in zip(view_want, model):
             if want[0] == 'prev_node':
                 got = ['prev_node', bg.eid_of_model((mval[0][0], mval[1]))] if mval else None
@@ -630,7 +634,7 @@ def typed_view_suite(chk, cases, impl):
 def malformed_suite(chk):
     ''' Tabulate acceptance, model vs implementation (NOT part of the verdict). '''
     items = gen_malformed(chk)
-    model = chk.coq_eval('mal', ['Lib.Cbor', 'Model.Bundle'], [coq_octets(raw) for (_l, raw) in items], 'run_decode')
+    model = yield ['(run_decode %s)' % coq_octets(raw) for (_l, raw) in items]
     table = {}
     for ((label, raw), mval) in zip(items, model):
         dec = impl_decode(raw)
@@ -736,6 +740,27 @@ def replay(chk, path):
     sys.exit(0)
 
 
+def run_all(chk, gens):
+    ''' Every suite is a generator that yields ONE list of closed Coq terms and is sent their values: all
+    suites share a single sharded Coq evaluation. '''
+    reqs = [next(gen) for gen in gens]
+    tick(chk, 'implementation side done, %d model evaluations' % sum(len(req) for req in reqs))
+    flat = [term for req in reqs for term in req]
+    res = chk.coq_eval('all', ['Lib.Cbor', 'Lib.Crc', 'Model.Bundle'], flat, '(fun x => x)', chunk=48,
+                       prelude=RUN_CASE + BIG_ENC + BIG_DEC)
+    tick(chk, 'model side done')
+    outs = []
+    pos = 0
+    for (gen, req) in zip(gens, reqs):
+        try:
+            gen.send(res[pos:pos + len(req)])
+            raise RuntimeError('suite yielded twice')
+        except StopIteration as stop:
+            outs.append(stop.value)
+        pos += len(req)
+    return outs
+
+
 def tick(chk, what):
     if os.environ.get('C02_TIMING'):
         import time
@@ -756,19 +781,14 @@ def main():
         if os.environ.get('C02_LIMIT'):   # development aid only
             valid = valid[::max(1, len(valid) // int(os.environ['C02_LIMIT']))]
             big = big[:1]
-        tick(chk, 'generated')
-        bad_big = big_suite(chk, big, pending)
-        tick(chk, 'big')
-        (bad_enc, bad_dec, impl, _m) = run_streams(chk, valid, pending)
-        bad_enc += bad_big
-        tick(chk, 'valid streams')
-        bad_views = typed_view_suite(chk, valid, impl)
-        tick(chk, 'views')
         findings = gen_findings(chk)
-        (fbad_enc, fbad_dec, _fimpl, _fm) = run_streams(chk, findings, pending)
-        tick(chk, 'findings')
-        (n_mal, table) = malformed_suite(chk)
-        tick(chk, 'malformed')
+        tick(chk, 'generated')
+        shared = {}
+        gens = [big_suite(chk, big, pending), run_streams(chk, valid, pending, shared),
+                typed_view_suite(chk, valid, shared), run_streams(chk, findings, pending, {}), malformed_suite(chk)]
+        (bad_big, (bad_enc, bad_dec), bad_views, (fbad_enc, fbad_dec), (n_mal, table)) = run_all(chk, gens)
+        bad_enc += bad_big
+        tick(chk, 'all suites compared')
     except CoqError as err:
         chk.obligation('correspondence:model-evaluation', False, str(err)[:1500])
         chk.finish(rule='model evaluation failed')
